@@ -150,6 +150,18 @@ func (w *World) verifyFuncOnce(fi *FuncInfo, props []string, prefix []int, pathM
 					break
 				}
 			}
+			for _, a := range fi.Spec.Asserts {
+				if res.Err == "" && !fx.assertSeen[a] {
+					res.Err = fmt.Sprintf("contract error: `assert before %q` names no statement of %s", a.Anchor, shortKey(fi.Key))
+					res.Obligs = nil
+				}
+			}
+			for _, d := range fi.Spec.Defensive {
+				if res.Err == "" && !fx.defensiveSeen[d] {
+					res.Err = fmt.Sprintf("contract error: `defensive %s` names no if-condition of %s", d, shortKey(fi.Key))
+					res.Obligs = nil
+				}
+			}
 		}
 	}()
 	defer func() {
